@@ -124,7 +124,7 @@ pub fn run(args: &[String]) {
     ns.par_iter().for_each(|&n| {
         let mut rep = Report::default();
         let mut rng = Rng::new(seed ^ (n as u64 * 7919));
-        for kind in Kind::ALL {
+        for kind in avail() {
             let dir = if n % 2 == 0 { FftDirection::Forward } else { FftDirection::Inverse };
             one::<f32>(kind, n, dir, &mut rng, &mut rep);
             one::<f64>(kind, n, dir, &mut rng, &mut rep);
